@@ -53,7 +53,7 @@ def description(rng):
         return segs, num, 1
     degree = rng.choice([2, 3])
     mixed = r > 0.8
-    raw = G.blob_segments(rng, rng.randint(3, 6), degree, center, 0.55 * size, size, mixed)
+    raw = G.blob_segments(rng, rng.randint(3, 6), degree, center, 0.55 * size, size, mixed, coincident=rng.random() < 0.3)
     segs = [tuple((Fr(x), Fr(y)) for x, y in seg) for seg in raw]
     # make junctions exactly shared
     for i in range(len(segs)):
